@@ -31,8 +31,15 @@ func emit(v interface{}) {
 	mu.Unlock()
 }
 
+var firstCase interface{}
+
 // Begin announces a case before it is executed (so a crash can be attributed).
 func Begin(id string, desc interface{}) {
+	mu.Lock()
+	if firstCase == nil && desc != nil {
+		firstCase = desc
+	}
+	mu.Unlock()
 	emit(map[string]interface{}{"t": "case", "id": id, "desc": desc})
 }
 
@@ -120,6 +127,9 @@ func Finish() {
 		d[k] = l
 	}
 	sm := samples
+	if len(sm) == 0 && firstCase != nil {
+		sm = []interface{}{firstCase} // a worker that sampled nothing still shows one literal case it ran
+	}
 	mu.Unlock()
 	emit(map[string]interface{}{"t": "finish", "stats": s, "max": m, "sets": d, "samples": sm})
 }
